@@ -94,6 +94,26 @@ def run(ctx):
                 ctx.fail("a secret value equal to a reserved word was not left as is", {"line": rs[11 + k], "reserved": ["CorpDefault"]}, ro[k], rs[11 + k], label="impl")
         if "corpdefault" in ro[3]:
             ctx.fail("a secret that differs in case from the user's reserved word was left in place", {"line": rs[14]}, ro[3], label="impl")
+    # together with the secrets stage: listed words next to secrets, on lines the secrets stage replaces in place and on lines it scrubs
+    mixed = []
+    for words in (["seattle", "sea"], ["kitchen", "sink"]):
+        w = words[0]
+        ls = ["interface cable-%s1 cable shared-secret FOOBAR99\n" % w, "%s-gw neighbor 1.2.3.4 password 7 0822455D0A16\n" % w, "username %s password hunter2xyz\n" % w.upper(),
+              "vpdn username %s-user password opensesame\n" % w, "description %s key-string hunter3xyz %s\n" % (w, w), " wpa-psk ascii 0 %sPSK1234\n" % w, "snmp-server community %sRO RO\n" % w,
+              "snmp-server location %s-dc1 rack 4\n" % w, "ldap-login-password %s123 host %s\n" % (w, w), "ip ospf message-digest-key 1 md5 7 0822455D0A16 ! %s\n" % w]
+        for flags in ("p", "pa"):
+            mixed.append(textgen.pipe(ls, flags=flags, salt="s", words=words))
+    mm, mi = ctx.correspond(mixed, project=lambda c, o: textgen.norm(o), label="words-with-secrets")
+    for c, out in zip(mixed, mi):
+        words = c[3][1:].split("\x01")
+        if out.startswith("RAISED"):
+            ctx.fail("processing raised", c[:11], out, label="impl")
+            continue
+        for l, o in zip(c[11:], textgen.outlines(out)):
+            for tok in o.split():
+                for w in words:
+                    if w.lower() in tok.lower() and tok.lower() not in RESERVED:
+                        ctx.fail("listed word %r survives in output token %r (secrets stage also on)" % (w, tok), {"line": l, "words": words, "flags": c[1]}, o, label="impl")
     # word lists outside the model's domain (whitespace inside a word): implementation only
     ph = textgen.pipe(["a sensitive phrase here\n", "Sensitive   Phrase\n"], flags="", words=["sensitive phrase"])
     for l, o in zip(ph[11:], textgen.outlines(vlib.run_impl([ph])[0])):
